@@ -25,6 +25,9 @@ type C06Sc struct {
 	NilHandlers bool `json:"nil_handlers,omitempty"`
 	// Swap: host replaces cpu.Memory/cpu.IO by equal-content devices before every Step (1) or copies the CPU struct too (2)
 	Swap int `json:"swap,omitempty"`
+	// Dumb: the CPU runs directly on the library's DumbMemory (64 KiB) - no memory history, events at
+	// boundaries and on notifications only; registers, stack bytes and the slot are compared as usual
+	Dumb bool `json:"dumb,omitempty"`
 }
 
 type c06 struct{}
@@ -137,6 +140,8 @@ func (c06) Gen(r *world.Rng, tier string, n int) interface{} {
 	sc.NilHandlers = r.Chance(1, 8)
 	if r.Chance(1, 8) {
 		sc.Swap = r.Range(1, 2)
+	} else if r.Chance(1, 8) {
+		sc.Dumb = true
 	}
 
 	t2 := uint16(r.Range(0x4000, 0x5fff))
@@ -215,6 +220,10 @@ func (c06) Gen(r *world.Rng, tier string, n int) interface{} {
 			prog = append(prog, 0xc3, uint8(s), uint8(s>>8))
 		case x < 95:
 			prog = append(prog, miHALT...)
+		case x < 98:
+			// a repeating search: PC stays on it Step after Step (BC, HL, A are whatever the scenario's
+			// registers say) - a request that turns up between two repetitions is examined like any other
+			prog = append(prog, 0xed, []uint8{0xb1, 0xb9}[r.Intn(2)])
 		default:
 			prog = append(prog, miNOP...)
 		}
@@ -323,6 +332,13 @@ func (c06) Exec(sci interface{}, env *Env) *Violation {
 	if sc.NilHandlers {
 		m.CPU.RETNHandler, m.CPU.RETIHandler = nil, nil
 	}
+	var dm z80.DumbMemory
+	if sc.Dumb {
+		dm = make(z80.DumbMemory, 65536)
+		copy(dm, m.Bus.Mem[:])
+		m.CPU.Memory = dm
+		env.Fire("on-library-DumbMemory")
+	}
 	base := m.Bus.Mem // copy: immutable base image of the model
 	ms := []*model.IntState{{
 		IFF1: sc.Regs.IFF1, IFF2: sc.Regs.IFF2, IM: sc.Regs.IM, I: sc.Regs.I, A: uint8(sc.Regs.AF >> 8),
@@ -383,6 +399,9 @@ func (c06) Exec(sci interface{}, env *Env) *Violation {
 		reqCopy := world.CloneRequest(req)
 		si := m.StepNoBoundary()
 		env.Steps++
+		if dm != nil {
+			copy(m.Bus.Mem[:], dm) // the image lives in the library type: mirror it for the comparisons below
+		}
 		if m.Mutated != "" {
 			return viol("request-value-modified", "%s; step %d", m.Mutated, step)
 		}
@@ -503,7 +522,11 @@ func (c06) Exec(sci interface{}, env *Env) *Violation {
 		}
 
 		// acceptance Step: bus history shows the pushes (and table reads) only
-		if c.Consumed {
+		if c.Consumed && dm != nil {
+			depth++
+			env.Fire("accept/" + c.Last.String())
+		}
+		if c.Consumed && dm == nil {
 			var wr, rd []world.Acc
 			for _, a := range m.Bus.Log {
 				switch a.Kind {
@@ -559,7 +582,7 @@ func (c06) Exec(sci interface{}, env *Env) *Violation {
 			if d := world.DiffStates(twin.States, cpu.States, false); d != "" {
 				return viol("refusal-changes-nothing", "Step with a refused request differs from the same Step without request:%s; %s", d, ctx())
 			}
-			if world.FmtLog(twinBus.Log) != world.FmtLog(m.Bus.Log) {
+			if dm == nil && world.FmtLog(twinBus.Log) != world.FmtLog(m.Bus.Log) {
 				return viol("refusal-changes-nothing", "bus history with a refused request %s differs from the same Step without request %s; %s", world.FmtLog(m.Bus.Log), world.FmtLog(twinBus.Log), ctx())
 			}
 			if before.IFF1 {
